@@ -231,7 +231,11 @@ OnCbOut(g, e, which) ==
                    !.inj = IF e.how = "exc" THEN @ \cup {which \o "-" \o ToString(e.id)} ELSE @,
                    !.anyExc = @ \/ e.how = "exc",
                    !.cbCanc = @ \/ e.how = "canc"],
-         Chk("C03.done", e.id, ok), Hit("C12.callback", e.how = "exc"))
+         Chk("C03.done", e.id, ok)
+         (* a task inside its callbacks is left alone: a callback sees a cancellation only if the user cancelled the awaiting
+            flush/gather_and_close, or a cancellation requested for this very task had not been delivered to its worker *)
+         \cup Chk(IF which = "ccb" THEN "C03.ccb" ELSE "C03.ecb", e.id, e.how = "canc" => (g.extCanc \/ t.owed \/ t.late)),
+         Hit("C12.callback", e.how = "exc"))
 
 ReqComplete(g, r) ==      \* every invocation / element of an accepted request has been turned into a call
   LET q == g.R[r] IN
